@@ -272,7 +272,7 @@ def forwarders(ctx, config, w):
 
 
 def run(ctx):
-    for config in ("f64-all", "dec-all"):
+    for config in ("f64-all", "dec-all") + (("f64-nostd", "dec-nostd") if ctx.tier == "thorough" else ()):
         w = ws.load(config)
         ctx.configs.append(config)
         convs = generic_rules(ctx, config, w.U)
@@ -281,7 +281,7 @@ def run(ctx):
             ctx.floor("%s: unit pairs x comparison operators with analysed conversion accuracy" % config, na, 1000)
         n = forwarders(ctx, config, w)
         G.unit_identity(ctx, config, w)
-        ctx.floor("%s: comparison forwarders of reference-unit types" % config, n, 2 * (23 if config == "f64-all" else 19))
+        ctx.floor("%s: comparison forwarders of reference-unit types" % config, n, 2 * {"f64-all": 23, "dec-all": 19}.get(config, 13))
         ov = G.overrides(ctx, "override", w.U, model.T_HRU, {"REF_UNIT"}, "HasRefUnit")
         for tk, (extra, imp) in ov.items():
             if set(extra) & {"eq", "partial_cmp", "equiv_amount"}:
